@@ -66,15 +66,15 @@ func (l *chunkListener) Accept() (net.Conn, error) {
 }
 
 type c16Cfg struct {
-	Algo      string   `json:"client_compression"`
-	Level     int      `json:"level"`
-	Enabled   []string `json:"server_compression_algorithms"`
-	Limit     int64    `json:"max_request_body_size"`
-	BodyKind  string   `json:"body_kind"`
-	BodyLen   int      `json:"body_len"`
-	Chunk     int      `json:"server_read_chunk"`
-	Truncate  int      `json:"truncate_stream_after"`
-	HandlerBuf int     `json:"handler_buffer"`
+	Algo       string   `json:"client_compression"`
+	Level      int      `json:"level"`
+	Enabled    []string `json:"server_compression_algorithms"`
+	Limit      int64    `json:"max_request_body_size"`
+	BodyKind   string   `json:"body_kind"`
+	BodyLen    int      `json:"body_len"`
+	Chunk      int      `json:"server_read_chunk"`
+	Truncate   int      `json:"truncate_stream_after"`
+	HandlerBuf int      `json:"handler_buffer"`
 }
 
 func makeBody(tp *simkit.Tape, kind string, n int) []byte {
